@@ -2,6 +2,6 @@
 import glob, os
 SPEC = {}
 for _f in sorted(glob.glob(os.path.join(os.path.dirname(os.path.abspath(__file__)), 'spec.d', 'C*.py'))):
-    _ns = {}
+    _ns = {'__file__': _f}
     exec(open(_f).read(), _ns)
     if _ns.get('SPEC_ENTRY'): SPEC[os.path.basename(_f)[:-3]] = _ns['SPEC_ENTRY']
